@@ -2,6 +2,7 @@ package rules
 
 import (
 	"fmt"
+	"go/constant"
 	"go/token"
 	"go/types"
 	"strings"
@@ -184,6 +185,104 @@ func runSeekRead(r *core.Run) {
 
 // ----------------------------------------------------------------- R-CTORERR
 
+// readAllErrors: the values of fn that carry the error of an io.ReadAll call — its second result, or the
+// corresponding result of an unexported helper whose error result is either nil or that error.
+func readAllErrors(fn *ssa.Function, depth int) []ssa.Value {
+	var out []ssa.Value
+	if depth > 2 {
+		return nil
+	}
+	for _, b := range fn.Blocks {
+		for _, in := range b.Instrs {
+			c, ok := in.(*ssa.Call)
+			if !ok {
+				continue
+			}
+			g := c.Call.StaticCallee()
+			if g == nil {
+				continue
+			}
+			idx := -1
+			switch {
+			case g.Name() == "ReadAll" && g.Pkg != nil && (g.Pkg.Pkg.Path() == "io" || g.Pkg.Pkg.Path() == "io/ioutil"):
+				idx = 1
+			case fnPkg(g) != nil && core.InModule(fnPkg(g)) && len(g.Blocks) > 0 && (g.Object() == nil || !g.Object().Exported()):
+				// helper: find the error result fed by ReadAll inside
+				inner := readAllErrors(g, depth+1)
+				if len(inner) == 0 {
+					continue
+				}
+				res := g.Signature.Results()
+				for i := 0; i < res.Len(); i++ {
+					if !isErrorType(res.At(i).Type()) {
+						continue
+					}
+					okAll, fed := true, false
+					for _, gb := range g.Blocks {
+						ret, isRet := lastInstr(gb).(*ssa.Return)
+						if !isRet {
+							continue
+						}
+						for _, leaf := range phiLeaves(ret.Results[i], 0) {
+							isInner := false
+							for _, iv := range inner {
+								if leaf == iv {
+									isInner = true
+								}
+							}
+							switch {
+							case isInner:
+								fed = true
+							case isNilConst(leaf):
+							default:
+								okAll = false
+							}
+						}
+					}
+					if okAll && fed {
+						idx = i
+					}
+				}
+			}
+			if idx < 0 {
+				continue
+			}
+			for _, ref := range *c.Referrers() {
+				if ex, isEx := ref.(*ssa.Extract); isEx && ex.Index == idx {
+					out = append(out, ex)
+				}
+			}
+		}
+	}
+	return out
+}
+
+// isNulOnlyGlobal: g is a package-level []byte whose literal is the single terminator byte.
+func isNulOnlyGlobal(r *core.Run, g *ssa.Global) bool {
+	if g == nil || g.Pkg == nil {
+		return false
+	}
+	pk := r.Prog.ByPath[g.Pkg.Pkg.Path()]
+	if pk == nil {
+		return false
+	}
+	l, err := evalGlobal(pk, g.Name())
+	if err != nil || l == nil {
+		return false
+	}
+	if l.Const != nil && l.IsBytes {
+		return constant.StringVal(l.Const) == "\x00"
+	}
+	if len(l.Elems) != 1 {
+		return false
+	}
+	if l.Elems[0] == nil {
+		return true
+	}
+	v, ok := l.Elems[0].Int()
+	return ok && v == 0
+}
+
 func runCtorErr(r *core.Run) {
 	for _, tc := range []struct{ rel, fn, typ string }{{"", "NewInput", "Input"}, {"buffer", "NewLexer", "Lexer"}} {
 		fn := r.Prog.SSAFunc(tc.rel, "", tc.fn)
@@ -191,18 +290,17 @@ func runCtorErr(r *core.Run) {
 			r.BrokenAnchor(tc.fn)
 			continue
 		}
-		readAll := callsNamed(fn, "ReadAll")
-		if len(readAll) != 1 {
-			r.Unknown(tc.fn+" shape", fn.Pos(), "expected one io.ReadAll call")
+		cr, why := discoverCursorRoles(r, cursorType{tc.rel, tc.typ})
+		if cr == nil {
+			r.Unknown(tc.fn+" shape", fn.Pos(), "cursor fields cannot be identified: "+why)
 			continue
 		}
-		// the error edge of ReadAll: err != nil
-		var errVal ssa.Value
-		for _, ref := range *readAll[0].Referrers() {
-			if ex, ok := ref.(*ssa.Extract); ok && ex.Index == 1 {
-				errVal = ex
-			}
+		errs := readAllErrors(fn, 0)
+		if len(errs) != 1 {
+			r.Unknown(tc.fn+" shape", fn.Pos(), fmt.Sprintf("expected one value carrying the error of io.ReadAll (directly or through an unexported helper), found %d", len(errs)))
+			continue
 		}
+		errVal := errs[0]
 		found := false
 		for _, b := range fn.Blocks {
 			ret, ok := lastInstr(b).(*ssa.Return)
@@ -211,24 +309,16 @@ func runCtorErr(r *core.Run) {
 			}
 			// is this return on the err != nil edge?
 			onErr := false
-			for p := b; p != nil; p = p.Idom() {
-				d := p.Idom()
-				if d == nil {
-					break
-				}
-				if iff, ok := lastInstr(d).(*ssa.If); ok {
-					if bo, ok := iff.Cond.(*ssa.BinOp); ok && bo.X == errVal && isNilConst(bo.Y) {
-						if (bo.Op == token.NEQ && d.Succs[0] == p) || (bo.Op == token.EQL && d.Succs[1] == p) {
-							onErr = true
-						}
-					}
+			for _, a := range guardsAt(b) {
+				if a.op == token.NEQ && (a.x == errVal && isNilConst(a.y) || a.y == errVal && isNilConst(a.x)) {
+					onErr = true
 				}
 			}
 			if !onErr {
 				continue
 			}
 			found = true
-			// returned value: fresh struct with buf = nullBuffer, err = errVal, nothing else
+			// returned value: fresh struct whose buffer is the terminator-only buffer, whose error is errVal, nothing else
 			al, ok := ret.Results[0].(*ssa.Alloc)
 			good := ok
 			var bufOK, errOK bool
@@ -238,15 +328,15 @@ func runCtorErr(r *core.Run) {
 					if !isFA {
 						continue
 					}
-					name := fieldName(fa.X.Type(), fa.Field)
+					role := cr.field[fieldName(fa.X.Type(), fa.Field)]
 					for _, r2 := range *fa.Referrers() {
 						st, isSt := r2.(*ssa.Store)
 						if !isSt {
 							continue
 						}
-						switch name {
+						switch role {
 						case "buf":
-							if g, _ := globalRoot(st.Val, nil, 0); g != nil && g.Name() == "nullBuffer" {
+							if g, _ := globalRoot(st.Val, nil, 0); isNulOnlyGlobal(r, g) {
 								bufOK = true
 							} else {
 								good = false
@@ -254,12 +344,14 @@ func runCtorErr(r *core.Run) {
 						case "err":
 							errOK = st.Val == errVal
 						default:
-							good = false
+							if c, isC := st.Val.(*ssa.Const); !isC || !(c.Value == nil || ssaIntConst(c) && c.Int64() == 0) {
+								good = false
+							}
 						}
 					}
 				}
 			}
-			r.Check(good && bufOK && errOK, tc.fn+" on reader failure returns the empty cursor with the reader's error", ret.Pos(), "", "when io.ReadAll fails the constructor must return {buf: nullBuffer, err: err}: a cursor that keeps partial data reports the error at every position while Peek still yields bytes (contract: the reader's own error with no data)")
+			r.Check(good && bufOK && errOK, tc.fn+" on reader failure returns the empty cursor with the reader's error", ret.Pos(), "", "when io.ReadAll fails the constructor must return a cursor over the terminator-only buffer that carries that error: a cursor that keeps partial data reports the error at every position while Peek still yields bytes (contract: the reader's own error with no data)")
 		}
 		r.Check(found, tc.fn+" handles reader failure", fn.Pos(), "", "no return on the `err != nil` edge of io.ReadAll")
 	}
